@@ -172,6 +172,10 @@ fn run01(ctx: &Ctx) {
     ctx.shrink_iters.set(2000);
     ctx.search("callgraph", "exec", cases, super::c07::cprog(), |p, want_case| {
         let mut case = super::c07::lower(p);
+        // see C07: on the fixed-metadata VM a stack overrun may land in the VM's own buffer
+        if matches!(case.vm, VmKind::Fixed { .. }) {
+            case.vm = VmKind::Raw;
+        }
         let mut st = ctx.stats();
         let frozen = st.is_frozen() || want_case;
         if !frozen {
